@@ -2,6 +2,7 @@ package streamsim
 
 import (
 	"fmt"
+	"os"
 	"runtime"
 	"runtime/debug"
 	"sort"
@@ -15,6 +16,7 @@ import (
 	"google.golang.org/protobuf/proto"
 
 	colarspb "github.com/open-telemetry/otel-arrow/api/experimental/arrow/v1"
+	"github.com/open-telemetry/otel-arrow/pkg/config"
 	"github.com/open-telemetry/otel-arrow/pkg/otel/arrow_record"
 	"github.com/open-telemetry/otel-arrow/pkg/record_message"
 
@@ -402,13 +404,25 @@ func (r *run) runStream() {
 	}
 	obs := &obsRec{r: r}
 	var producer *arrow_record.Producer
+	popts := opt.build(alloc, obs)
+	if prop == "C15" && t.Chance(core.Cfg, 1, 6) {
+		// the statistics options are producer options too; they print, so
+		// stdout is silenced while such a producer works
+		popts = append(popts, config.WithSchemaStats())
+		r.feats["schema_stats"] = "on"
+		if devnull, err := os.OpenFile(os.DevNull, os.O_WRONLY, 0); err == nil {
+			old := os.Stdout
+			os.Stdout = devnull
+			defer func() { os.Stdout = old; devnull.Close() }()
+		}
+	}
 	func() {
 		defer func() {
 			if p := recover(); p != nil {
 				r.violate(prop, "no-panic", fmt.Sprintf("NewProducerWithOptions panicked: %v", p))
 			}
 		}()
-		producer = arrow_record.NewProducerWithOptions(opt.build(alloc, obs)...)
+		producer = arrow_record.NewProducerWithOptions(popts...)
 	}()
 	if producer == nil {
 		return
@@ -427,6 +441,40 @@ func (r *run) runStream() {
 		defer wire.Close()
 	}
 	roundtrip := prop == "C01" || prop == "C02" || prop == "C03" || prop == "C04"
+	type inFlight struct {
+		bar    *colarspb.BatchArrowRecords
+		want   []Item
+		i      int
+		signal string
+		kind   string
+	}
+	var queue []inFlight
+	lag := 0
+	if roundtrip {
+		lag = t.Weighted(core.Fault, 5, 2, 1, 1)
+		if lag > 0 {
+			r.fault("delivery_delayed")
+		}
+	}
+	deliver := func() bool {
+		m := queue[0]
+		queue = queue[1:]
+		got, _, derr, dpan := decode(consumer, m.signal, m.bar)
+		if dpan != "" {
+			r.violate(prop, "no-panic", fmt.Sprintf("consumer panicked on batch %d (%s): %s", m.i, m.signal, dpan))
+			return false
+		}
+		if derr != nil {
+			r.violate(prop, "decode-ok", fmt.Sprintf("batch %d (%s) of a healthy stream (delivered %d batches behind the producer) was rejected by the consumer: %v", m.i, m.signal, lag, derr))
+			return false
+		}
+		if d, class := DiffItemsClass(m.want, got); d != "" {
+			r.feats["class"] = class
+			r.violate(prop, "items-equal", fmt.Sprintf("batch %d (%s, %s; delivered %d batches behind the producer): %s", m.i, m.signal, m.kind, lag, d))
+			return false
+		}
+		return true
+	}
 	var samples []map[string]any
 	lastJSON := ""
 	closed := false
@@ -491,21 +539,20 @@ func (r *run) runStream() {
 			wire.Observe(cloneBar(bar), mainType(b.signal))
 		}
 		if roundtrip {
-			got, n, derr, dpan := decode(consumer, b.signal, cloneBar(bar))
-			if dpan != "" {
-				r.violate(prop, "no-panic", fmt.Sprintf("consumer panicked on batch %d (%s): %s", i, b.signal, dpan))
-				break
+			// The transport delivers in order but may lag: the producer runs up
+			// to `lag` batches ahead of the consumer (message delay). What is
+			// queued is the very message the producer returned, not a copy.
+			queue = append(queue, inFlight{bar: bar, want: want, i: i, signal: b.signal, kind: b.kind})
+			if len(queue) > lag {
+				if !deliver() {
+					break
+				}
 			}
-			if derr != nil {
-				r.violate(prop, "decode-ok", fmt.Sprintf("batch %d (%s) of a healthy stream was rejected by the consumer: %v", i, b.signal, derr))
-				break
-			}
-			_ = n
-			if d, class := DiffItemsClass(want, got); d != "" {
-				r.feats["class"] = class
-				r.violate(prop, "items-equal", fmt.Sprintf("batch %d (%s, %s): %s", i, b.signal, b.kind, d))
-				break
-			}
+		}
+	}
+	for roundtrip && len(queue) > 0 && len(r.out.Violations) == 0 {
+		if !deliver() {
+			break
 		}
 	}
 	func() {
